@@ -49,4 +49,8 @@ theorem holds_closed_listener_releases_loop (taken closed : Bool) (h : taken = t
     GrpcMux.loopPastHandoff Facts.grpcMuxHandoff taken closed = true :=
   Props.C09.closed_listener_releases_loop _ (by decide) taken closed h
 
+theorem holds_next_listener_gets_own_stream (tokenPending : Bool) (closed next : Nat) :
+    GrpcMux.nextAccepts Facts.grpcMuxClientClose tokenPending closed next = some (GrpcMux.Tag.brokered next) :=
+  Props.C09.next_listener_gets_own_stream _ (by decide) tokenPending closed next
+
 end GoPlugin.Instance.C09
